@@ -11,12 +11,12 @@ PROP = dict(
                 "value field; opening a wrapper succeeds only if the version is 1, the DEK field is a wrapping of some data key under the caller's key with the v1 DEK context and "
                 "the DB field a ciphertext under that very data key with the v1 database context, and then yields exactly the document that save wrote - hence a foreign key, a "
                 "wrong version, a wrong context, a damaged field, or the DB field of a database with another data key is an error, and a file differing from a valid one in one "
-                "field opens to the original contents or not at all; along any history of calls AND reopens the key-encryption key is used once at creation and exactly once per reopen, by no call (in particular not by the first write "
+                "field opens to the original contents or not at all; along any history of calls (each with ANY outcome of its save - accepted or refused - and of its audit record) AND reopens the key-encryption key is used once at creation and exactly once per reopen, by no call (in particular not by the first write "
                 "after a reopen; the saved file is a function of the data key and the stored wrapped-key bytes only); every open attempt is a function of the file and the key GIVEN to it, "
                 "consults that key at most once, exactly once when it succeeds or the file is undamaged, and no other key. Tied to the code by histories with high-entropy marker names/values on the real db.DB under a real tink "
                 "AES-256-GCM KEK behind a counting proxy with the audit log in a real file: after every call the wrapper's member set and version, DEK unwrap with the v1 context and "
                 "not with others, DB decryption with the v1 context and not with others, the decrypted document, a scan of every file of the state directory for every marker "
-                "(plain, base64 std/url at 3 alignments, hex, JSON-escaped), mode bits and KEK uses are compared with the symbolic model run on the database model; the handle is dropped and the file reopened with the same key at random points (KEK uses continue to be compared: 1 per reopen, 0 for every call); "
+                "(plain, base64 std/url at 3 alignments, hex, JSON-escaped), mode bits and KEK uses are compared with the symbolic model run on the database model; every seventh mutating call has its save REFUSED by the file system (result class, state served and file compared with the model's rollback; 0 KEK uses), in a third of the histories the key service is DOWN between opens (every KEK call after open would fail), the handle is dropped and the file reopened with the same key at random points (KEK uses continue to be compared: 1 per reopen, 0 for every call); "
                 "db.Open attempts in ONE process on ONE path, each made right after a successful open of the original with the right key and followed by another (bit flips, every "
                 "truncation point, foreign keys also in runs without a successful open in between, fields of other databases incl. golden ones, version edits), with the uses of the key given "
                 "and of every other key counted per attempt, are compared with the symbolic c_open / judged by the verified monitors error-or-original and open_uses_ok; modes at creation of the temporary come from the strace trace, of the client cache file from a real FileCache."),
@@ -26,7 +26,7 @@ PROP = dict(
     rule=("150 (thorough 3000) histories of 5-18 calls (every fifth: 30-45 mutation-heavy calls) with reopens of the file at random points (about 2 per history, mostly followed by a write) and 4 marker names and 8 marker values (binary, printable, JSON-escaped) probed after every call; for the first 10 (40) "
           "histories db.Open on altered copies of the final file: every bit of the JSON skeleton + 512 sampled payload bits (thorough: every bit), every truncation point, 3+ foreign "
           "keys, DEK/DB fields of 3 fresh and 2 golden databases incl. duplicate members, 17 version edits - batched per class, any opening to different contents reported on its own; "
-          "every attempt interleaved with successful right-key opens of the original on the same path, plus a run of 24 right/foreign-key attempts; KEK uses at creation and 4 reopens; creation modes. A history is non-trivial with >= 3 successful saves; distinct by marker seed + operations"),
+          "every attempt interleaved with successful right-key opens of the original on the same path, plus a run of 24 right/foreign-key attempts; KEK uses at creation and 4 reopens; creation modes; modes after FileCache.Write over a pre-existing 0644/0666/0640/0604 file (empty, old document, garbage) and after a save over a valid database file chmod'ed 0644/0666/0640 (fresh and reopened handle). A history is non-trivial with >= 3 successful saves; distinct by marker seed + operations"),
     explain=("a file of the state directory exposes a marker, or the structure/modes/KEK use of the database file differ from the symbolic model, or an altered file opened to contents "
              "different from the original"),
     assumptions=["ideal AEAD (symbolic encryption)", "values are tokens; marker values are random byte strings of 18-67 bytes"],
